@@ -9,7 +9,8 @@
 (*                      | register: registerConnForAddress (takeover: removeAddress on the old owner) + send      *)
 (* connWorker         = d_read: read + canonicalise | d_lookup: addressMap | d_ufrag: (miss, STUN) USERNAME ufrag *)
 (*                      in the table of the source's family | d_enq: writePacket (dropped if closed)              *)
-(* RemoveConnByUfrag  = r_unlist: delete from both tables | r_unmap: delete the bindings of the address lists     *)
+(* RemoveConnByUfrag  = r_unlist: delete from both tables and close the removed connections                        *)
+(*                      | r_unmap: delete the bindings of their address lists                                     *)
 (* GetConn, Close of a connection (+ its watcher goroutine's RemoveConnByUfrag), Close of the mux: one step each. *)
 EXTENDS Naturals, Sequences, FiniteSets, TLC
 CONSTANTS Ufrags,      \* ufrags connections are requested for
@@ -22,7 +23,11 @@ CONSTANTS Ufrags,      \* ufrags connections are requested for
           MuxClose,    \* is Close of the mux explored?
           MaxCloses,   \* Close calls on connections
           SetupFirst,  \* concurrent model: connections are created before anything else starts
-          MaxOps       \* sequential model: histories of at most this many operations
+          MaxOps,      \* sequential model: histories of at most this many operations
+          Defects      \* behaviours of the tree before its repair, kept as switches (default {}):
+                       \*   "a" removal only unlists (the connection stays open; registration does not look at closed)   [fixed c1ad2ed]
+                       \*   "c" the watcher of a closed connection removes everything registered under its ufrag          [fixed 47338ec]
+                       \*   "d" registration strips the address from the registering connection's own list               [fixed a16378f]
 VARIABLE st
 Conns == 1..MaxConns
 Canon(x) == CASE x = "m1" -> "s1" [] x = "m2" -> "s2" [] OTHER -> x
@@ -60,8 +65,10 @@ wCheck(S, w) == [S EXCEPT !.wpc[w] = IF S.closed[S.wc[w]] THEN "idle" ELSE "cont
 wContains(S, w) == [S EXCEPT !.wpc[w] = IF Has(S.caddrs[S.wc[w]], Canon(S.wx[w])) THEN "idle" ELSE "append"]
 wAppend(S, w) == [S EXCEPT !.caddrs[S.wc[w]] = Append(@, Canon(S.wx[w])), !.wpc[w] = "register"]
 wRegister(S, w) == LET k == Canon(S.wx[w])  c == S.wc[w]  old == S.amap[k] IN
-    IF S.muxClosed THEN [S EXCEPT !.wpc[w] = "idle"]            \* registerConnForAddress returns early
-    ELSE LET S1 == IF old # 0 THEN [S EXCEPT !.caddrs[old] = Without(@, k)] ELSE S IN   \* existing.removeAddress (also when existing = c)
+    \* registerConnForAddress returns early on a closed mux and (under addressMapMu) on a closed connection
+    IF S.muxClosed \/ ("a" \notin Defects /\ S.closed[c]) THEN [S EXCEPT !.wpc[w] = "idle"]
+    ELSE LET S1 == IF old # 0 /\ (old # c \/ "d" \in Defects)
+                   THEN [S EXCEPT !.caddrs[old] = Without(@, k)] ELSE S IN   \* a different previous owner loses the address
          [S1 EXCEPT !.amap[k] = c, !.wpc[w] = "idle"]
 wStep(S, w) == CASE S.wpc[w] = "start" -> wCheck(S, w) [] S.wpc[w] = "contains" -> wContains(S, w)
                  [] S.wpc[w] = "append" -> wAppend(S, w) [] S.wpc[w] = "register" -> wRegister(S, w) [] OTHER -> S
@@ -80,21 +87,26 @@ dStep(S) == CASE S.dpc = "lookup" -> dLookup(S) [] S.dpc = "ufrag" -> dUfrag(S) 
 CanRStart(S, u) == S.rpc = "idle" /\ S.removes < MaxRemoves
 rStart(S, u) == [S EXCEPT !.rpc = "unlist", !.ru = u, !.removes = @ + 1]
 unlisted(S, u) == {S.listed[f][u] : f \in Fams} \ {0}
+\* removal stops the connections it unlists (their watchers then find nothing of their own to remove)
+stop(S, cs) == IF "a" \in Defects THEN S
+               ELSE [S EXCEPT !.closed = [c \in Conns |-> S.closed[c] \/ c \in cs], !.q = [c \in Conns |-> IF c \in cs THEN <<>> ELSE S.q[c]]]
 rUnlist(S) == LET cs == unlisted(S, S.ru) IN
-    [S EXCEPT !.listed = [f \in Fams |-> [S.listed[f] EXCEPT ![S.ru] = 0]], !.rcs = cs,
-              !.rpc = IF cs = {} THEN "idle" ELSE "unmap"]
+    [stop(S, cs) EXCEPT !.listed = [f \in Fams |-> [S.listed[f] EXCEPT ![S.ru] = 0]], !.rcs = cs,
+                        !.rpc = IF cs = {} THEN "idle" ELSE "unmap"]
 unmapped(S, cs) == [k \in Keys |-> IF \E c \in cs : Has(S.caddrs[c], k) THEN 0 ELSE S.amap[k]]
 rUnmap(S) == [S EXCEPT !.amap = unmapped(S, S.rcs), !.gone = @ \cup S.rcs, !.rpc = "idle"]
 rStep(S) == CASE S.rpc = "unlist" -> rUnlist(S) [] S.rpc = "unmap" -> rUnmap(S) [] OTHER -> S
 \* ---------------------------------------------------------------- Close of a connection's (only) handle; its watcher
-\* goroutine then calls RemoveConnByUfrag(ufrag of c), which takes whatever is listed under that ufrag in both families
+\* goroutine then removes the connection itself from the tables (if it is still listed) and drops its bindings
 CanCloseConn(S, c) == c <= S.made /\ ~S.hclosed[c] /\ S.closes < MaxCloses
 closeConn(S, c) == LET u == S.cu[c]
-                       cs == IF S.closed[c] THEN {} ELSE unlisted(S, u)       \* the watcher fires once, on the real close
-                       S1 == [S EXCEPT !.hclosed[c] = TRUE, !.closed[c] = TRUE, !.q[c] = <<>>, !.closes = @ + 1] IN
+                       \* the watcher fires once, on the real close
+                       cs == IF S.closed[c] THEN {} ELSE IF "c" \in Defects THEN unlisted(S, u) ELSE unlisted(S, u) \cap {c}
+                       S1 == [S EXCEPT !.hclosed[c] = TRUE, !.closed[c] = TRUE, !.q[c] = <<>>, !.closes = @ + 1]
+                       S2 == stop(S1, cs) IN
     IF S.closed[c] THEN S1
-    ELSE [S1 EXCEPT !.listed = [f \in Fams |-> [S1.listed[f] EXCEPT ![u] = 0]],
-                    !.amap = unmapped(S1, cs), !.gone = @ \cup cs \cup {c}]
+    ELSE [S2 EXCEPT !.listed = [f \in Fams |-> [x \in Ufrags |-> IF S2.listed[f][x] \in cs THEN 0 ELSE S2.listed[f][x]]],
+                    !.amap = unmapped(S2, cs), !.gone = @ \cup {c}]
 \* ---------------------------------------------------------------- Close of the mux: closes the listed connections, empties the
 \* tables (the watchers then find nothing to remove, so the bindings stay), closes the socket
 closeMux(S) == LET cs == {S.listed[f][u] : f \in Fams, u \in Ufrags} \ {0} IN
@@ -149,6 +161,8 @@ SeqBound == TLCGet("level") <= MaxOps
 Busy(S, c) == (\E w \in Writers : S.wpc[w] # "idle" /\ S.wc[w] = c) \/ S.dpc # "idle" \/ S.rpc # "idle"
 \* after removal / close has completed and nothing is in progress, no address is bound to the connection
 GoneAfterRemove == \A c \in st.gone : (~Busy(st, c) /\ ~st.muxClosed) => \A k \in Keys : st.amap[k] # c
+\* a connection that was neither removed nor closed stays registered
+ListedUnlessGone == \A c \in Conns : (c <= st.made /\ c \notin st.gone /\ ~st.muxClosed /\ st.rpc = "idle") => Listed(st, c)
 \* a closed connection holds nothing
 ClosedEmpty == \A c \in Conns : st.closed[c] => st.q[c] = <<>>
 \* each datagram is queued at most once
